@@ -114,12 +114,21 @@ def ids_arg(csel):
     return np.array(csel["ids"])
 
 
-def vols_arg(cvol):
+def _as_int(v):
+    return int(v) if isinstance(v, float) and math.isfinite(v) and v == int(v) and abs(v) < 1e15 else v
+
+
+def vols_arg(cvol, ints=False):
+    """Concrete volume argument; with ints=True whole numbers are passed as Python ints (and all-integer
+    2-D arrays with an integer dtype) - the same volumes in another presentation."""
     t = cvol["t"]
     if t == "scalar":
-        return cvol["v"]
+        return _as_int(cvol["v"]) if ints else cvol["v"]
     if t == "list":
-        return list(cvol["v"])
+        return [_as_int(x) for x in cvol["v"]] if ints else list(cvol["v"])
+    flat = [x for row in cvol["v"] for x in row]
+    if ints and all(isinstance(_as_int(x), int) for x in flat):
+        return np.array([[int(x) for x in row] for row in cvol["v"]], dtype=int)
     return np.array(cvol["v"], dtype=float)
 
 
@@ -266,7 +275,7 @@ def resolve(world, op):
                 vols = [max(0.0, best)] * len(flat)
             else:
                 vols = [vols[0]] * len(flat)
-        conc = {"op": kind, "lw": i, "wells": csel, "vols": vols_concrete(shape, vols, csel), "label": op.get("label"), "kw": dict(op.get("kw") or {})}
+        conc = {"op": kind, "lw": i, "wells": csel, "vols": vols_concrete(shape, vols, csel), "label": op.get("label"), "kw": dict(op.get("kw") or {}), "ints": bool(op.get("ints"))}
         if op.get("comps") and kind in ("add", "dispense"):
             conc["comps"] = op["comps"]
         return conc
@@ -337,6 +346,7 @@ def resolve(world, op):
             "pb": op.get("pb", "auto"),
             "label": op.get("label"),
             "kw": dict(op.get("kw") or {}),
+            "ints": bool(op.get("ints")),
         }
     if kind == "distribute":
         si, di = op["src"] % len(specs), op["dst"] % len(specs)
@@ -555,7 +565,7 @@ def execute(world, conc):
     try:
         if kind in ("add", "remove"):
             lw = labs[conc["lw"]]
-            args = (ids_arg(conc["wells"]), vols_arg(conc["vols"]))
+            args = (ids_arg(conc["wells"]), vols_arg(conc["vols"], conc.get("ints")))
             if kind == "add":
                 comps = None
                 if conc.get("comps"):
@@ -570,14 +580,14 @@ def execute(world, conc):
             if kind == "dispense" and conc.get("comps"):
                 n = len(flat_pairs(world, conc))
                 kw["compositions"] = [{k: float(v) for k, v in known_comp(None, conc["comps"] + j).items()} for j in range(n)]
-            getattr(wl, kind)(lw, ids_arg(conc["wells"]), vols_arg(conc["vols"]), label=conc.get("label"), **kw)
+            getattr(wl, kind)(lw, ids_arg(conc["wells"]), vols_arg(conc["vols"], conc.get("ints")), label=conc.get("label"), **kw)
         elif kind == "transfer":
             wl.transfer(
                 labs[conc["src"]],
                 ids_arg(conc["sw"]),
                 labs[conc["dst"]],
                 ids_arg(conc["dw"]),
-                vols_arg(conc["vols"]),
+                vols_arg(conc["vols"], conc.get("ints")),
                 label=conc.get("label"),
                 wash_scheme=conc.get("wash", 1),
                 partition_by=conc.get("pb", "auto"),
@@ -664,6 +674,7 @@ def op_direct(vs, kinds=("add", "remove", "aspirate", "dispense"), comps=False, 
         "wells": wsel(max_n=max_n),
         "vols": vsel(vs, max_n=max_n),
         "label": labels,
+        "ints": st.booleans(),
     }
     if comps:
         d["comps"] = st.one_of(st.none(), st.integers(1, 5))
@@ -684,6 +695,7 @@ def op_transfer(vs, max_n=6, labels=label_st, kw=st.just({})):
             "label": labels,
             "fail_side": st.sampled_from(["src", "dst"]),
             "kw": kw,
+            "ints": st.booleans(),
         }
     )
 
